@@ -152,3 +152,31 @@ Definition prun (t : bool) (s : pstate) (evs : list pevent) : pstate := fold_lef
 Definition no_send (evs : list pevent) : bool :=
   forallb (fun e => match e with PWorkerSend => false | _ => true end) evs.
 Definition pblocked0 : pstate := {| blocked := true; hdone := false; pexit := false |}.
+
+(* ---- promptness, general form.  Two independent features of the code:
+     timeout    : the coordinator's wait on the channels is bounded (select_timeout) and the main
+                  loop re-checks EXIT_EARLY after a wait that received nothing;
+     flag_first : the handler sets EXIT_EARLY BEFORE it asks for the write lock of the channel
+                  map (so its signal does not depend on winning that lock).
+   [pstep] above is [pstep_gen t false].  With the timeout alone the handler can still starve: the
+   coordinator releases the read lock only for an instant between two waits
+   ([prompt_timeout_alone_starves]); with both, every schedule that gives main two steps after
+   the handler's first step reaches the exit ([prompt_both_all_schedules]). *)
+Definition pstep_gen (timeout flag_first : bool) (s : pstate) (e : pevent) : pstate :=
+  if pexit s then s else
+  match e with
+  | PHandler =>
+      if flag_first then {| blocked := blocked s; hdone := true; pexit := false |}
+      else if blocked s then s
+      else {| blocked := false; hdone := true; pexit := false |}
+  | PMain =>
+      if blocked s then
+        if timeout then {| blocked := false; hdone := hdone s; pexit := false |} else s
+      else if hdone s then {| blocked := false; hdone := true; pexit := true |}
+      else {| blocked := true; hdone := false; pexit := false |}
+  | PWorkerSilent => s
+  | PWorkerSend => {| blocked := false; hdone := hdone s; pexit := false |}
+  end.
+Definition prun_gen (t f : bool) (s : pstate) (evs : list pevent) : pstate := fold_left (pstep_gen t f) evs s.
+Definition count_main (evs : list pevent) : nat :=
+  length (filter (fun e => match e with PMain => true | _ => false end) evs).
